@@ -216,7 +216,16 @@ func runC07(c *eng.Ctx) {
 			}
 		}
 		c.Check(okCap, "flushes-the-capture", fl.Instr, f, "the sequences handed to the flush are the captured ones", "sequences argument is "+p.Desc(capMap))
-		c.Check(args[1] == frozen, "flushes-the-frozen-db", fl.Instr, f, "the database handed to the flush is the frozen one", "db argument is "+p.Desc(args[1]))
+		sameDB := args[1] == frozen || eng.SameValue(args[1], frozen)
+		if !sameDB {
+			// read back from f.immutableMemDB inside the freezing hold, with no store to it in between
+			if in, ok := args[1].(ssa.Instruction); ok && eng.LoadField(dfT+".immutableMemDB")(p, in) {
+				okh, _ := ls.SameHold(freeze, in, dfMu, true)
+				_, restored := eng.Reaches(f, freeze, p.Sites(f, eng.StoreField(dfT+".immutableMemDB")), []eng.Site{{Fn: f, Instr: in}})
+				sameDB = okh && !restored && eng.DominatedBy(f, in, []eng.Site{{Fn: f, Instr: freeze}}, nil)
+			}
+		}
+		c.Check(sameDB, "flushes-the-frozen-db", fl.Instr, f, "the database handed to the flush is the frozen one", "db argument is "+p.Desc(args[1]))
 		// after a successful flush: persistSeq := capture, immutable cleared, both in one hold
 		okd, whyd := eng.OkDominates(f, fl.Instr, clearImm)
 		c.Check(okd, "clear-only-after-commit", clearImm, f, "the immutable database is dropped only after its flush committed", whyd)
